@@ -98,14 +98,15 @@ fn real_member(n: i64, first: i64, data: &[u8], idx: usize) -> String {
     r.unwrap_or_else(|_| "panic".into())
 }
 
-fn member_streams(driver: &Driver, seed: u64, thorough: bool, rep: &mut Report) {
+fn member_streams(driver: &Driver, seed: u64, thorough: bool, rep: &mut Report, only: Option<u64>) {
     let mut sp = Stream_::new("c11.pack", true);
     let mut st = Stream_::new("c11.member", true);
     let mut os = Oracle::new("c11.slices");
     let n = if thorough { 20_000 } else { 3000 };
     let mut pack_cases = vec![];
     let mut cases = vec![];
-    for case in 0..n {
+    let range = match only { Some(c) => c..c + 1, None => 0..n };
+    for case in range {
         let mut rng = Rng::derive(seed, "c11.member", case);
         let fid = 1 + rng.below(200);
         let ms = gen_members(&mut rng, fid, 7);
@@ -149,6 +150,7 @@ fn member_streams(driver: &Driver, seed: u64, thorough: bool, rep: &mut Report) 
     rep.streams.push(sp);
     rep.streams.push(st);
     rep.oracles.push(os);
+    if only.is_some() { return; }
 
     let mut so = Stream_::new("c11.member.outside", false);
     let n = if thorough { 40_000 } else { 5000 };
@@ -449,13 +451,15 @@ pub fn run(driver: &Driver, seed: u64, thorough: bool, replay: Option<&Value>) -
         let s = r["stream"].as_str().unwrap_or("");
         if s == "c11.twins" || s == "c11.witness" {
             twin_oracle(seed, thorough, &mut rep, Some(r));
+        } else if s == "c11.member" {
+            member_streams(driver, seed, thorough, &mut rep, r["case"].as_u64());
         } else {
-            member_streams(driver, seed, thorough, &mut rep);
+            member_streams(driver, seed, thorough, &mut rep, None);
             crate::c17::load_streams(driver, seed, thorough, &mut rep);
         }
         return rep;
     }
-    member_streams(driver, seed, thorough, &mut rep);
+    member_streams(driver, seed, thorough, &mut rep, None);
     crate::c17::load_streams(driver, seed, thorough, &mut rep);
     twin_oracle(seed, thorough, &mut rep, None);
     rep
